@@ -37,7 +37,9 @@ ASSUMPTIONS = [
     'a Text node consisting of white space only is accepted as a child of a Document (DOMDocumentImpl::isKidOK extension)',
     'namespace-aware attribute lookups also find Level-1 attributes whose nodeName equals the local name when the namespace is null '
     '(DOMAttrMapImpl::findNamePoint comment); scripts that would put two attributes with the same nodeName into one element stop the comparison',
-    'cloneNode/importNode(element) keep the user-determined ID flag of attributes (not specified by DOM L3)',
+    'cloneNode/importNode(element) keep the user-determined ID flag of attributes; renameNode / adoptNode of an attribute that belongs to an '
+    'element clear it (not specified by DOM L3)',
+    'an empty DocumentFragment given to insertBefore/appendChild of a node that cannot have children: either HIERARCHY_REQUEST_ERR or no effect',
     'compareDocumentPosition of disconnected nodes / two attributes of one element: only the DISCONNECTED/IMPLEMENTATION_SPECIFIC bits and '
     'the presence of exactly one of PRECEDING/FOLLOWING are compared',
     'user-data handler calls are compared as a multiset of (operation, key, data, source node); dst is not compared',
@@ -73,6 +75,22 @@ def esc(s):
         else:
             out.append(s[i])
         i += 1
+    return ''.join(out)
+
+
+def to_units(s):
+    """str -> str of UTF-16 code units (a JSON round trip joins surrogate pairs into one code point: split them again)"""
+    if s is None or all(ord(ch) < 0x10000 for ch in s):
+        return s
+    out = []
+    for ch in s:
+        c = ord(ch)
+        if c >= 0x10000:
+            c -= 0x10000
+            out.append(chr(0xD800 + (c >> 10)))
+            out.append(chr(0xDC00 + (c & 0x3FF)))
+        else:
+            out.append(ch)
     return ''.join(out)
 
 
@@ -125,7 +143,7 @@ def all_ws(s):
 # ---------------------------------------------------------------------------------------------------
 class Node:
     __slots__ = ('t', 'doc', 'parent', 'kids', 'name', 'ns', 'prefix', 'local', 'data', 'attrs', 'owner', 'h', 'ro',
-                 'spec', 'isid', 'alive', 'ud', 'l2', 'serial', 'origin')
+                 'spec', 'isid', 'alive', 'ud', 'l2', 'serial', 'origin', 'mapdirty')
 
     def __init__(self, t, doc, name=None, data=None):
         self.t = t
@@ -146,6 +164,7 @@ class Node:
         self.l2 = False         # created by a namespace-aware method
         self.serial = 0
         self.origin = 'created' # created | cloned | imported | split | implicit | renamed
+        self.mapdirty = False   # element: a namespace-aware replacement put a differently NAMED attribute into the slot of the old one
 
     def docnode(self):
         return self if self.t == DOC else self.doc
@@ -246,15 +265,20 @@ KID_OK = {
 }
 
 
+# operations that look an attribute up by nodeName (binary search in DOMAttrMapImpl::findNamePoint)
+BY_NAME_OPS = {'setAttr', 'getAttr', 'hasAttr', 'remAttr', 'getAttrNode', 'setAttrNode', 'setId', 'remAttrNode', 'setIdNode', 'rename'}
+
+
 class Exp:
     """expectation for one operation"""
-    __slots__ = ('codes', 'res', 'ud', 'dontcare', 'degrade', 'kills', 'cls', 'quirks', 'ud_dontcare', 'newdocs')
+    __slots__ = ('codes', 'res', 'ud', 'dontcare', 'degrade', 'kills', 'cls', 'quirks', 'ud_dontcare', 'newdocs', 'ud_optional')
 
     def __init__(self):
         self.codes = None        # None => must succeed; else set of acceptable DOMException codes ('dom:N' / 'range:N')
         self.res = None          # None => not compared; str or set of str
         self.ud = []             # expected user data events
         self.ud_dontcare = False
+        self.ud_optional = []    # events that may or may not be delivered (release() of attributes below a released element)
         self.dontcare = False    # implementation dependent: any outcome accepted, comparison stops afterwards
         self.degrade = False
         self.kills = []
@@ -409,11 +433,16 @@ class Model:
             v.text_changed(self, n, kind, off, cnt, ins)
 
     def _release_subtree(self, n, exp):
+        inattr = set()
         for x in subtree(n):
+            # attribute nodes of a released element: DOMElementImpl::release() releases them, DOMElementNSImpl::release() does not;
+            # doc/program-dom.xml only promises "its associated children": NODE_DELETED for them is optional
+            if x is not n and (x.t == ATTR or (x.parent is not None and id(x.parent) in inattr)):
+                inattr.add(id(x))
             if x.ud:
                 for k, (val, hd) in sorted(x.ud.items()):
                     if hd:
-                        exp.ud.append((3, k, val, 'null'))
+                        (exp.ud_optional if id(x) in inattr else exp.ud).append((3, k, val, 'null'))
             if x.h is not None:
                 exp.kills.append(x.h)
             self.kill(x)
@@ -652,6 +681,28 @@ class Model:
             return e
         errs = self._insert_errors(p, new, ref)
         e.cls = self._ins_class(p, new, ref, errs)
+        if errs == {HIERARCHY} and new.t == FRAG and not new.kids and p.t not in PARENT_TYPES and new is not p:
+            # nothing would be inserted: DOM L3 does not say whether the node type check applies (Xerces: DocumentType accepts it)
+            e.codes = {HIERARCHY, 'ok'}
+            e.cls = 'empty-fragment-into-leaf'
+            return e
+        if errs == {HIERARCHY} and p.t == DOC and new.t == FRAG and new is not p and not new.is_ancestor_or_self_of(p) and \
+                all(k.t in KID_OK[DOC] for k in new.kids):
+            # every child is acceptable on its own, only the "one element / one doctype" rule fails
+            e.cls = 'fragment-exceeding-document-limits'
+            e.quirks.append('fragment-partial-insert')
+            if 'fragment-partial-insert' in self.quirk:
+                have_e = any(k.t == ELEMENT for k in p.kids)
+                have_t = any(k.t == DOCTYPE for k in p.kids)
+                for k in list(new.kids):
+                    if (k.t == ELEMENT and have_e) or (k.t == DOCTYPE and have_t):
+                        break
+                    self._detach(k)
+                    self._attach(p, k, ref)
+                    have_e = have_e or k.t == ELEMENT
+                    have_t = have_t or k.t == DOCTYPE
+            e.codes = errs
+            return e
         if errs:
             e.codes = errs
             if p.t == DOC and new.t in (ELEMENT, DOCTYPE) and new.parent is p:
@@ -748,6 +799,7 @@ class Model:
                 c.kids.append(kc); kc.parent = c
             return c
         if n.t == ELEMENT:
+            c.mapdirty = n.mapdirty and not importing
             for a in n.attrs:
                 ac = self._clone(a, True, exp, d, importing, False)
                 ac.isid = a.isid
@@ -776,6 +828,12 @@ class Model:
         e = Exp()
         if n.t in (DOC, DOCTYPE):
             e.codes = {NOT_SUPPORTED}; e.cls = 'unsupported-type'
+            return e
+        # importNode re-creates every node through the factory methods, which validate names (only a node renamed through
+        # the rename-no-name-check deviation can carry an invalid one)
+        scope = subtree(n) if deep else ([n] + (list(n.attrs) if n.t == ELEMENT else []))
+        if any(x.t in (ELEMENT, ATTR, PI, ENTREF) and not x.l2 and name_class(x.name) is False for x in scope):
+            e.codes = {INVALID_CHAR}; e.cls = 'invalid-name-in-source'
             return e
         c = self._clone(n, deep, e, doc, importing=True)
         e.res = self.result(c, want)
@@ -837,7 +895,10 @@ class Model:
         if errs and not ('rename-no-name-check' in self.quirk and errs == {INVALID_CHAR} and 'rename-no-name-check' in e.quirks):
             e.codes = errs
             e.cls = 'illegal'
-            if n.t in (ELEMENT, ATTR) and n.docnode() is doc and n.l2 and qname:
+            if n.t == ATTR and n.docnode() is doc and n.owner is not None and not (ns is None and not n.l2):
+                # DOMAttrImpl/DOMAttrNSImpl::rename take the attribute out of its element before the new name is validated
+                e.cls = 'illegal-owned-attr'
+            elif n.t in (ELEMENT, ATTR) and n.docnode() is doc and n.l2 and qname is not None:
                 # DOMElementNSImpl/DOMAttrNSImpl::setName store the new name before validating it (and an owned attribute
                 # has already been taken out of its element): the node is modified although the call fails
                 e.cls = 'illegal-ns-aware-node'
@@ -855,6 +916,7 @@ class Model:
             if n.t == ATTR and n.owner is not None:
                 el = n.owner
                 el.attrs.remove(n); n.owner = None
+                n.isid = False          # taken out through removeAttributeNode, which drops the ID registration (not specified by DOM L3)
                 n.name = qname
                 self._set_attr_node(el, n, False, e)
             else:
@@ -867,6 +929,7 @@ class Model:
             if n.t == ATTR and n.owner is not None:
                 el = n.owner
                 el.attrs.remove(n); n.owner = None
+                n.isid = False
                 self._set_qname(n, ns, qname)
                 self._set_attr_node(el, n, True, e)
                 e.ud_dontcare = True      # DOMAttrNSImpl::rename fires nothing: reported separately by the checker
@@ -993,6 +1056,10 @@ class Model:
             if clash:
                 raise Undecided('nodeName duplicate in attribute map')
         if old is not None:
+            if nsaware and old.name != a.name and len(el.attrs) >= 2:
+                # DOMAttrMapImpl::setNamedItemNS stores the new node at the index of the old one although the vector is kept sorted
+                # by nodeName for the binary search of the Level-1 methods (observed defect: later lookups by name can miss attributes)
+                el.mapdirty = True
             el.attrs.remove(old)
             old.owner = None
         el.attrs.append(a)
@@ -1012,14 +1079,15 @@ class Model:
     def op_setAttr(self, want, el, name, val):
         e = Exp()
         errs = set()
-        if not self._check_name(name):
+        a = self._attr_by_name(el, name) if name is not None else None
+        if not self._check_name(name) and a is None:
+            # (an attribute with an invalid name can only exist through the rename-no-name-check deviation: then it is simply updated)
             errs.add(INVALID_CHAR)
         if el.ro:
             errs.add(NO_MOD)
         if errs:
             e.codes = errs; e.cls = 'illegal'
             return e
-        a = self._attr_by_name(el, name)
         e.cls = 'existing' if a else 'new'
         if a is None:
             a = self.mk(ATTR, el.doc, name)
@@ -1092,6 +1160,8 @@ class Model:
                     b = self.mk(ATTR, el.doc)
                     b.origin = 'implicit'
                     self._set_qname(b, ns, qname)
+                    if a.name != qname and len(el.attrs) >= 2:
+                        el.mapdirty = True
                     el.attrs.remove(a); a.owner = None
                     clash = [x for x in el.attrs if x.name == qname]
                     if clash:
@@ -1333,6 +1403,12 @@ class Model:
             errs.add(INDEX_SIZE)
         if n.parent is not None and n.parent.ro:
             errs.add(NO_MOD)
+        if not errs and n.parent is not None and n.parent.t == DOC:
+            tail = n.data[off:]
+            if n.t != TEXT or tail == '' or not all_ws(tail):
+                # the second half has to be inserted into the Document, which only takes non-empty white space text
+                e.codes = {HIERARCHY}; e.cls = 'under-document'
+                return e
         if errs:
             e.codes = errs; e.cls = 'offset-out-of-range' if INDEX_SIZE in errs else 'read-only'
             return e
@@ -1366,10 +1442,21 @@ class Model:
         return sib[a:b + 1]
 
     def _run_after_container_text(self, run):
-        """the node before the run is an element / entity reference whose last child is not an element, comment or PI:
-        DOMTextImpl::getWholeText / replaceWholeText walk backwards INTO it (observed defect, notes/C13.md)"""
+        """DOMTextImpl::getWholeText / replaceWholeText walk with TreeWalker::previousNode/nextNode and only stop at the START of an
+        element, comment or PI: they do not notice LEAVING an element.  Hence text at the end of a preceding sibling element, or text
+        following the parent element, is treated as logically adjacent (observed defect, notes/C13.md).  True when this run is exposed."""
         p = run[0].prev()
-        return p is not None and p.t in (ELEMENT, ENTREF) and bool(p.kids) and p.kids[-1].t not in (ELEMENT, COMMENT, PI)
+        if p is not None and p.t in (ELEMENT, ENTREF) and p.kids:
+            return True
+        if run[-1].next() is None:
+            node = run[-1].parent
+            while node is not None and node.parent is not None and node.parent.t != DOC:
+                nx = node.next()
+                if nx is None:
+                    node = node.parent
+                    continue
+                return nx.t in (TEXT, CDATA, ENTREF)
+        return False
 
     def op_wholeText(self, want, n):
         e = Exp()
@@ -1408,7 +1495,7 @@ class Model:
                 continue
             self._detach(x)
             self._release_subtree(x, e)
-        e.res = self.ref(keep) if keep is not None else 'null'
+        e.res = self.result(keep, want) if keep is not None else 'null'
         return e
 
     def op_setValue(self, want, n, s):
@@ -1630,7 +1717,13 @@ class Model:
                     return 'leaf-firstchild-source'
             if name == 'rename':
                 doc, n, ns, qname = a
-                if n.t in (ELEMENT, ATTR) and n.docnode() is doc and n.l2 and qname:
+                if n.t == ATTR and n.docnode() is doc and n.owner is not None and not (ns is None and not n.l2):
+                    try:
+                        if self._qname_errors(ns, qname, True):
+                            return 'illegal-owned-attr'
+                    except Undecided:
+                        return None
+                if n.t in (ELEMENT, ATTR) and n.docnode() is doc and n.l2 and qname is not None:
                     try:
                         if self._qname_errors(ns, qname, n.t == ATTR):
                             return 'illegal-ns-aware-node'
@@ -1638,6 +1731,10 @@ class Model:
                         return None
             if name == 'setAttrNode' and a[1].t == ATTR and a[1].owner is a[0] and not a[0].ro:
                 return 'own-attribute'
+            if name in BY_NAME_OPS and a[0].t == ELEMENT and a[0].mapdirty:
+                return 'attr-map-out-of-order'
+            if name == 'rename' and a[1].t == ATTR and not a[1].l2 and a[1].owner is not None and a[1].owner.mapdirty:
+                return 'attr-map-out-of-order'
             if name in ('wholeText', 'replaceWholeText'):
                 n = a[0]
                 if n.parent is not None and self._under_docelement(n):
@@ -1657,7 +1754,11 @@ class Model:
         f = getattr(self, 'op_' + name, None)
         if f is None:
             raise Undecided('unknown operation ' + name)
-        return f(want, *args)
+        dirty = name in BY_NAME_OPS and self.tail_class(op) == 'attr-map-out-of-order'
+        exp = f(want, *args)
+        if dirty:
+            exp.cls = 'attr-map-out-of-order'
+        return exp
 
 
 # ---------------------------------------------------------------------------------------------------
@@ -1727,7 +1828,7 @@ class ScriptOp:
 
     @staticmethod
     def from_json(j):
-        return ScriptOp(j[0], j[1], j[2], j[3] if len(j) > 3 else None)
+        return ScriptOp(j[0], j[1], [to_units(a) if isinstance(a, str) else a for a in j[2]], j[3] if len(j) > 3 else None)
 
 
 # ---------------------------------------------------------------------------------------------------
@@ -1747,7 +1848,13 @@ UD_KEYS = ['k1', 'k2', 'é']
 
 # classes of operands that are only generated as the LAST operation of a script: the real library is known to
 # break there (DESIGN section 5) and nothing can be compared afterwards
-TAIL_ONLY = {'own-attribute', 'insert-into-self', 'count-huge', 'illegal-ns-aware-node', 'leaf-firstchild-source', 'after-element-ending-in-text'}
+TAIL_ONLY = {'attr-map-out-of-order', 'illegal-owned-attr', 'own-attribute', 'insert-into-self', 'count-huge', 'illegal-ns-aware-node', 'leaf-firstchild-source', 'after-element-ending-in-text'}
+
+
+# Deviations from the DOM text that the unchanged tree is known to have (notes/C13.md).  The GENERATOR follows them, so that
+# the handles and "!n" directives of a script describe what the real library does; the CHECKER always tries the W3C behaviour
+# first and reports the deviation.  Remove an entry when the corresponding defect is fixed in /repo.
+KNOWN_DEVIATIONS = set(ALL_QUIRKS)
 
 
 class Gen:
@@ -1756,6 +1863,7 @@ class Gen:
         self.nops = nops
         self.max_docs = max_docs
         self.m = Model()
+        self.m.quirk = set(KNOWN_DEVIATIONS)
         self.ops = []            # ScriptOp (incl. kill pseudo-ops)
         self.next_h = 0
         self.stopped = None
@@ -1855,7 +1963,7 @@ class Gen:
         nlive = len(self.m.H)
         w = dict(create=16, insert=24, remove=6, replace=5, clone=3, imp=2, adopt=1, rename=2, normalize=2, attr=16, cdata=12,
                  split=2, rwt=1, value=3, ud=3, query=5, release=2, bind=2, newdoc=0.2)
-        if nlive > 70:
+        if nlive > 45:
             w['create'] = 3; w['release'] = 10; w['clone'] = 1; w['remove'] = 10
         if nlive < 8:
             w['create'] = 40
@@ -1973,6 +2081,8 @@ class Gen:
         c = self._child_candidate(p)
         if c is None:
             return None
+        if p.t == DOC and c.parent is p and c.t in (ELEMENT, DOCTYPE) and self.r.random() < 0.93:
+            return None      # moving the document element inside its document: known deviation class, kept rare
         if self.r.random() < 0.45:
             return self.emit('app', None, [p.h, c.h])
         ref = self._ref_candidate(p, c)
@@ -2010,6 +2120,8 @@ class Gen:
         if new is None:
             return None
         if new is old and r.random() < 0.995:
+            return None
+        if p.t == DOC and new.parent is p and new.t in (ELEMENT, DOCTYPE) and r.random() < 0.93:
             return None
         return self.emit('rep', None, [p.h, new.h, old.h])
 
@@ -2323,22 +2435,29 @@ class Gen:
             return self.emit('app', None, [p.h, h], tail=True)
         if x < 0.87:
             n = self.pick(lambda n: n.t in (TEXT, CDATA) and n.parent is not None and n.parent.t == ELEMENT and self.m._under_docelement(n)
-                          and n.prev() is not None and n.prev().t == ELEMENT and n.prev().kids and n.prev().kids[-1].t in (TEXT, CDATA))
+                          and self.m.tail_class(('wholeText', None, [n])) is not None)
             if n is None:
                 return None
             if r.random() < 0.4:
                 return self.emit('wholeText', None, [n.h], tail=True)
             return self.emit('replaceWholeText', self.newh(), [n.h, r.choice(['Z', 'tail'])], tail=True)
-        if x < 0.93:
+        if x < 0.91:
             a = self.pick(lambda n: n.t == ATTR and n.owner is not None and n.owner.h is not None)
             if a is None:
                 return None
             return self.emit('setAttrNode', self.newh(), [a.owner.h, a.h], tail=True)
+        if x < 0.95:
+            el = self.pick(lambda n: n.t == ELEMENT and n.mapdirty and n.attrs)
+            if el is None:
+                return None
+            nm = r.choice(el.attrs).name
+            k = r.choice(['setAttr', 'getAttr', 'remAttr', 'hasAttr'])
+            return self.emit(k, None, [el.h, nm] + (['Z'] if k == 'setAttr' else []), tail=True)
         d = self.pick_doc()
-        n = self.pick(lambda n: n.t in (ELEMENT, ATTR) and n.l2 and d is n.docnode())
+        n = self.pick(lambda n: (n.t in (ELEMENT, ATTR) and n.l2 and d is n.docnode()) or (n.t == ATTR and n.owner is not None and d is n.docnode()))
         if n is None:
             return None
-        ns, qn = r.choice([(None, 'p:a'), ('urn:u1', 'xml:a'), ('urn:u1', 'a:b:c'), ('urn:u1', ':a'), ('urn:u1', 'a:'), ('urn:u1', 'p:1a')])
+        ns, qn = r.choice([('urn:u2', 'a:'), ('urn:u1', 'xml:a'), ('urn:u1', 'a:b:c'), ('urn:u1', ':a'), ('urn:u1', 'a:'), ('urn:u1', 'p:1a')])
         return self.emit('rename', self.newh(), [d.h, n.h, ns, qn], tail=True)
 
     # ---------------------------------------------------------------- whole script
@@ -2357,6 +2476,55 @@ class Gen:
 
 def script_text(ops):
     return '\n'.join(o.render() for o in ops)
+
+
+def _dec_tok(t):
+    if t == '~':
+        return None
+    if t == '%':
+        return ''
+    b = bytearray()
+    i = 0
+    while i < len(t):
+        if t[i] == '%' and i + 2 < len(t) + 1 and len(t) - i >= 3:
+            b.append(int(t[i + 1:i + 3], 16))
+            i += 3
+        else:
+            b.extend(t[i].encode('utf-8'))
+            i += 1
+    return b.decode('utf-8', 'surrogatepass')
+
+
+def parse_script(text):
+    """script text (as rendered by ScriptOp.render) -> [ScriptOp]; used for hand-written special cases and witnesses"""
+    ops = []
+    for line in text.strip().split('\n'):
+        tk = line.split()
+        if not tk or tk[0] == '#':
+            continue
+        kills = []
+        while tk and tk[-1].startswith('!n'):
+            kills.append(int(tk.pop()[2:]))
+        name, want = tk[0], None
+        if '=' in name:
+            name, w = name.split('=')
+            want = int(w[1:])
+        sig = SIG[name]
+        args = []
+        for i, t in enumerate(tk[1:]):
+            k = sig[i] if i < len(sig) and sig[i] != '*' else '*'
+            if k in 'dnN':
+                args.append(None if t == '~' else int(t[1:]))
+            elif k in 'ib':
+                args.append(int(t))
+            elif k == 'w':
+                args.append(t)
+            elif k == '*':
+                args.append(int(t) if t.isdigit() else _dec_tok(t))
+            else:
+                args.append(to_units(_dec_tok(t)))
+        ops.append(ScriptOp(name, want, args, sorted(kills)))
+    return ops
 
 
 # ---------------------------------------------------------------------------------------------------
@@ -2407,6 +2575,7 @@ def exh_ops(reduced):
 def exh_script(seq):
     """-> (ops incl. set-up and kill lines, number of set-up operations, stopped-reason) or None when a handle is dead"""
     m = Model()
+    m.quirk = set(KNOWN_DEVIATIONS)
     out = []
     for name, want, args in EXH_SETUP:
         op = ScriptOp(name, want, args)
